@@ -65,10 +65,7 @@ def _expr_roundtrip_impl(p, c):
     if adm is None:
         return True     # not a tree the parser can produce: outside the precondition
     tree, text = adm
-    try:
-        out = python_minifier.unparse(ast.parse(text))
-    except ValueError:
-        return True     # no text was produced (totality is C08's question); UnstableMinification is not a ValueError
+    out = python_minifier.unparse(ast.parse(text))     # an exception here means no identical-tree text exists: a violation
     return _strict_same(out, tree)
 
 
@@ -90,10 +87,7 @@ def _expr_roundtrip3_impl(p, c, g):
     if adm is None:
         return True
     tree, text = adm
-    try:
-        out = python_minifier.unparse(ast.parse(text))
-    except ValueError:
-        return True
+    out = python_minifier.unparse(ast.parse(text))
     return _strict_same(out, tree)
 
 
@@ -116,10 +110,7 @@ def _stmt_roundtrip_impl(s, c, c2):
     if adm is None:
         return True
     tree, text = adm
-    try:
-        out = python_minifier.minify(text, **ALL_OFF)
-    except ValueError:
-        return True
+    out = python_minifier.minify(text, **ALL_OFF)
     return _strict_same(out, tree)
 
 
